@@ -21,6 +21,15 @@ Open Scope Z_scope.
 
 Definition item := list Z.                       (* the bytes of one element (itemsize of them) *)
 
+(* the dtype descriptors this model speaks about: byte order character + kind + decimal item size with the kind one of
+   b i u f c S V (Model/Npy.v reads the item size off the digits, which is right for these kinds; 'U' has 4 bytes per
+   character, 'M' / 'm' carry a unit, structured dtypes are lists: reached by the correspondence only) *)
+Definition kind_modelled (descr : bytes) : bool :=
+  match descr with
+  | _ :: k :: _ => existsb (Z.eqb k) [98; 105; 117; 102; 99; 83; 86]
+  | _ => false
+  end.
+
 Definition npy_align : Z := 64.                  (* numpy.lib.format.ARRAY_ALIGN *)
 
 (* numpy _wrap_header: hlen = len(text) + 1; padlen = ARRAY_ALIGN - ((MAGIC_LEN + calcsize(fmt) + hlen) % ARRAY_ALIGN);
